@@ -40,7 +40,7 @@ RULE = (
 )
 ASSUMPTIONS = [
     "interval rules are evaluated on a single monotonic event counter (call / return events)",
-    "thread histories: a call exceeding its 30 s watchdog is a deadlock only if two stack samples 3 s apart show every participating thread parked on the same lines inside easynetwork frames; otherwise the run is inconclusive",
+    "thread histories: a call exceeding its 150 s watchdog is a deadlock only if two stack samples 3 s apart show every participating thread parked on the same lines inside easynetwork frames; otherwise the run is inconclusive",
 ]
 REQUIRED = [
     "kind:async-tcp",
@@ -467,7 +467,7 @@ def run_thread_history(h: dict, seed: int) -> dict:
         ths = [threading.Thread(target=driver, args=(t,), daemon=True) for t in range(h["ntasks"])]
         for t in ths:
             t.start()
-        deadline = time.monotonic() + 30
+        deadline = time.monotonic() + 150
         for t in ths:
             t.join(max(0.1, deadline - time.monotonic()))
         stuck = [t for t in ths if t.is_alive()]
@@ -522,7 +522,7 @@ def run_thread_history(h: dict, seed: int) -> dict:
 
             et = threading.Thread(target=epilogue, daemon=True)
             et.start()
-            et.join(60)
+            et.join(150)
             if et.is_alive():
                 stuck = [et]
             for t in serve_threads:
@@ -587,7 +587,7 @@ def run_shard(params: dict, ctx) -> None:
             if res["stuck"]["deadlock"]:
                 ctx.violation(f"deadlock:standalone-{'udp' if h['udp'] else 'tcp'}", f"threads parked on identical easynetwork lines in two samples 3 s apart: {res['stuck']['stacks']}", {"history": h, "threads": True})
             else:
-                ctx.inconclusive_because("a threaded lifecycle call exceeded its 30 s watchdog without a stable deadlock signature")
+                ctx.inconclusive_because("a threaded lifecycle call exceeded its 150 s watchdog without a stable deadlock signature: " + repr({"history": h["ops"], "stacks": res["stuck"]["stacks"], "events": [(e["k"], e.get("op"), e.get("result"), e.get("task")) for e in res["events"]][-12:]})[:1500])
             continue
         why = check_history(res["events"], ctx, threads=True)
         if why:
